@@ -427,7 +427,7 @@ class LinearConstraints(keras.constraints.Constraint):
     return {
         "monotonicities": self.monotonicities,
         "monotonic_dominances": self.monotonic_dominances,
-        "range_doinances": self.range_dominances,
+        "range_dominances": self.range_dominances,
         "input_min": self.input_min,
         "input_max": self.input_max,
         "normalization_order": self.normalization_order
